@@ -191,7 +191,7 @@ func (vc *VC) enterLoop(li *LoopInfo, pre *State) *State {
 		vc.specDepth++
 		v := env.eval(cl.Text[i+1:])
 		vc.specDepth--
-		if v.K == KInt {
+		if v.K == KInt && !strings.Contains(cl.Text, "contents(") {
 			v.S = vc.name("let_"+strings.TrimSpace(cl.Text[:i]), "Int", v.S)
 		}
 		vc.lets[strings.TrimSpace(cl.Text[:i])] = v
@@ -633,7 +633,7 @@ func (vc *VC) runOnce() {
 			g, ok := func() (g string, ok bool) {
 				defer func() {
 					if e := recover(); e != nil {
-						if se, is := e.(SpecError); is && strings.Contains(se.Error(), "unknown identifier") {
+						if strings.Contains(fmt.Sprint(e), "unknown identifier") {
 							ok = false
 							return
 						}
@@ -867,6 +867,9 @@ func symNumber(sym string) int {
 	i := strings.LastIndex(sym, "!")
 	if i < 0 {
 		return -1
+	}
+	if i+1 >= len(sym) {
+		return -1 // "!" itself (the annotation marker), or a name ending in "!"
 	}
 	n := 0
 	for _, c := range sym[i+1:] {
